@@ -55,13 +55,20 @@ def fresh_dir(d):
     return d
 
 
+_GEN_DONE = {}
+
+
 def run_gen(gdir):
+    # once per check run and directory: the tree under test does not change while a check runs
+    if gdir in _GEN_DONE and os.path.exists(os.path.join(gdir, 'gen_report.json')):
+        return _GEN_DONE[gdir]
     os.makedirs(gdir, exist_ok=True)
     r = sh([sys.executable, os.path.join(ROOT, 'gen', 'gen.py'), REPO, gdir])
     if r.returncode != 0:
         die_infra('harness generator: the headers no longer provide what the spec names:\n' + r.stderr)
     with open(os.path.join(gdir, 'gen_report.json')) as f:
-        return json.load(f)
+        _GEN_DONE[gdir] = json.load(f)
+    return _GEN_DONE[gdir]
 
 
 HANDWRAPPED = {'Avtp_CanBrief_Finalize', 'Avtp_CanBrief_SetPayload', 'Avtp_Can_CreateAcfMessage', 'Avtp_Can_Finalize',
